@@ -18,6 +18,7 @@ import (
 	"strings"
 	"syscall"
 	"testing"
+	"time"
 
 	"github.com/containerd/containerd/v2/pkg/reference"
 	"github.com/containerd/stargz-snapshotter/cache"
@@ -102,6 +103,21 @@ func TestVerifC01Mount(t *testing.T) {
 	defer out.Close()
 	n := verifutil.EnvInt("VERIF_N", 8)
 	ctx := context.Background()
+	// every filesystem root lives under one scratch directory; the blob caches commit
+	// asynchronously, so it is removed (repeatedly) at the very end
+	parent, err := os.MkdirTemp("", "verifc01fs")
+	if err != nil {
+		t.Fatal(err)
+	}
+	defer func() {
+		for i := 0; i < 20; i++ {
+			time.Sleep(100 * time.Millisecond)
+			os.RemoveAll(parent)
+			if _, err := os.Stat(parent); os.IsNotExist(err) && i >= 3 {
+				break
+			}
+		}
+	}()
 	type labelSet struct {
 		toc  string // none | bad | good | wrong
 		skip bool
@@ -161,7 +177,7 @@ func TestVerifC01Mount(t *testing.T) {
 			t.Fatal(err)
 		}
 		desc := ocispec.Descriptor{Digest: dg, Size: int64(len(b.B0)), MediaType: ocispec.MediaTypeImageLayerGzip}
-		root, err := os.MkdirTemp("", "verifc01fs")
+		root, err := os.MkdirTemp(parent, "fs")
 		if err != nil {
 			t.Fatal(err)
 		}
